@@ -336,7 +336,7 @@ def extract(parser_file=None):
     funcs = {n.name: n for n in mod.body if isinstance(n, ast.FunctionDef)}
     if "parse" not in funcs:
         raise Unrecognised("no function parse")
-    info = {"caught_unpickle": None, "caught_integrity": None, "isolation": [], "sql": [], "recover": False}
+    info = {"caught_unpickle": None, "caught_integrity": None, "isolation": [], "sql": [], "recover": False, "write_tolerant": False}
 
     def has_sql(fn, seen=()):
         for node in ast.walk(fn):
@@ -401,7 +401,9 @@ def extract(parser_file=None):
                 raise Unrecognised("SQL in a condition")
             if ta or tb:
                 r, tr = walk(rest, guarded, depth)
-                return ["choice", a if ta else seq(a, r), b if tb else seq(b, r)], (ta or tr) and (tb or tr)
+                aa, bb = (a if ta else seq(a, r)), (b if tb else seq(b, r))
+                node = ["skip"] if aa == ["skip"] and bb == ["skip"] else ["choice", aa, bb]
+                return node, (ta or tr) and (tb or tr)
             r, tr = walk(rest, guarded, depth)
             node = ["choice", a, b] if (a != ["skip"] or b != ["skip"]) else ["skip"]
             return seq(node, r), tr
@@ -434,6 +436,13 @@ def extract(parser_file=None):
                 if forgets and retries and catches_db and body != ["skip"]:
                     info["recover"] = True
                     continue
+                # the shape of fix C01-2: a DatabaseError of the cache write (the INSERT) is not propagated; the
+                # handler forgets the earlier check and parse() goes on to return the tree
+                inserts = contains(st.body, lambda n: isinstance(n, ast.Call) and isinstance(n.func, ast.Attribute)
+                                   and n.func.attr == "execute" and n.args and (_const_str(n.args[0]) or "").strip().upper().startswith("INSERT"))
+                ends_raising = bool(h.body) and isinstance(h.body[-1], ast.Raise)
+                if forgets and inserts and catches_db and not retries and not ends_raising:
+                    info["write_tolerant"] = True
                 hb, _ = walk(h.body, guarded, depth)
                 if hb != ["skip"]:
                     raise Unrecognised("SQL inside an exception handler")
@@ -466,7 +475,7 @@ def extract(parser_file=None):
         raise Unrecognised("no sqlite3.connect call")
     return {"prog": prog, "caught_unpickle": info["caught_unpickle"], "caught_integrity": info["caught_integrity"] or [],
             "isolation_none": all(i == "None" for i in info["isolation"]), "sql": info["sql"],
-            "recover": info["recover"]}
+            "recover": info["recover"], "write_tolerant": info["write_tolerant"]}
 
 
 def prog_to_lean(p, ind=2):
@@ -503,7 +512,10 @@ def caughtIntegrity : List String := %s
 def isolationLevelNone : Bool := %s
 /-- `parse` re-validates a database it had initialised when its lookup raises a `DatabaseError` (fix C01-1) -/
 def recoversAfterDamage : Bool := %s
+/-- a `DatabaseError` of the cache write (the INSERT of a fresh tree) does not leave `parse` (fix C01-2) -/
+def toleratesWriteFailure : Bool := %s
 
 end PymocaVerif.Generated.SqlProgram
 """ % (prog_to_lean(ex["prog"]), strs(ex["caught_unpickle"]), strs(ex["caught_integrity"]),
-       "true" if ex["isolation_none"] else "false", "true" if ex["recover"] else "false"))
+       "true" if ex["isolation_none"] else "false", "true" if ex["recover"] else "false",
+       "true" if ex["write_tolerant"] else "false"))
